@@ -77,4 +77,10 @@ TEXT = {
     level_text="Generated schedules put the flush before, concurrently with and after the handler's completion and reuse the freed tag; a stale reply is recognised by its marker regardless of the tag it travels on.",
     level_note="Trusted: as C06. Instruction-level interleavings inside the serve loop are chosen by the scheduler (each racy window is hit with high probability per case and many cases are run).",
  ),
+ "C11": dict(
+    technique="fault-injection property testing (rapid): generated sets of in-flight requests x fault kind x byte offset against the real ServeConn/SSession/SFileSys stack over an instrumented mock file system; crashes recovered from a per-case journal",
+    design_ref="DESIGN.md section 4, C11",
+    level_text="Fault-point enumeration by generation: every (fault kind x in-flight operation kind) cell is required to be covered in the thorough tier; release accounting and the fid table are observed directly after shutdown.",
+    level_note="Trusted: memconn fault injection, mockfs release accounting, VerifFidTable. Termination is tested as 'within 10 s', not proved.",
+ ),
 }
